@@ -353,12 +353,12 @@ fn int_tables_noncompact() {
             0x0123456789abcdef_fedcba9876543210u128,
             0xdeadbeefcafebabe_0123456789abcdefu128,
         ];
-        for sh in 64..=127u32 {
+        for sh in (64..=127u32).step_by(9) {
             ns.push((1u128 << sh) - 1);
             ns.push(1u128 << sh);
         }
         let mut x: u128 = 0x9e3779b97f4a7c15_f39cc0605cedc835u128 ^ (r as u128);
-        for _ in 0..40 {
+        for _ in 0..12 {
             x = x.wrapping_mul(0xda942042e4dd58b5_u128).wrapping_add(0x14057b7ef767814f_u128);
             x ^= x >> 61;
             ns.push(x);
